@@ -447,12 +447,37 @@ func (r *Recorder) Unwrap(stanzas []*age.Stanza) ([]byte, error) {
 	return fk, err
 }
 
-// Record wraps every identity of a list.
+// FuncIdentity is an identity in the style of http.HandlerFunc; SliceIdentity
+// one whose value carries a slice. Both are legal implementations of
+// age.Identity whose dynamic type is NOT comparable: two interface values
+// holding them cannot be compared with == (it panics at run time).
+type FuncIdentity func(stanzas []*age.Stanza) ([]byte, error)
+
+func (f FuncIdentity) Unwrap(stanzas []*age.Stanza) ([]byte, error) { return f(stanzas) }
+
+type SliceIdentity struct {
+	Rec  *Recorder
+	Tags []string
+}
+
+func (s SliceIdentity) Unwrap(stanzas []*age.Stanza) ([]byte, error) { return s.Rec.Unwrap(stanzas) }
+
+// Record wraps every identity of a list. The wrappers are of three kinds in
+// rotation: a pointer (comparable), a func value and a struct value with a
+// slice field (the last two are not comparable types).
 func Record(ids []age.Identity) ([]age.Identity, *CallLog) {
 	log := &CallLog{}
 	out := make([]age.Identity, len(ids))
 	for i, id := range ids {
-		out[i] = &Recorder{Inner: id, Index: i, Log: log}
+		rec := &Recorder{Inner: id, Index: i, Log: log}
+		switch ((i+1)/2 + len(ids)) % 3 { // neighbours share a kind
+		case 0:
+			out[i] = rec
+		case 1:
+			out[i] = FuncIdentity(rec.Unwrap)
+		default:
+			out[i] = SliceIdentity{Rec: rec, Tags: []string{"verif"}}
+		}
 	}
 	return out, log
 }
